@@ -206,6 +206,7 @@ pub fn make(profile: &str, seed: u64) -> (Params, Extras) {
                 ph.corrupt = 0.0;
                 ph.truncate = 0.0;
             }
+            p.knobs.insert("c08_promptness".into(), 1);
             p
         }
         "C09" => {
